@@ -145,8 +145,15 @@ def histories(draw, max_ops=40, big=False, cls='continuous', scattered=None,
         else:
             ops.append(['settle'])
     sc = draw(st.booleans()) if scattered is None else scattered
-    return {'kind': 'history', 'cls': cls, 'scattered': sc, 'layout': layout,
+    case = {'kind': 'history', 'cls': cls, 'scattered': sc, 'layout': layout,
             'ops': ops, 'drain': draw(st.lists(st.integers(0, 5), max_size=6))}
+    if cls == 'reconfig':
+        # CONTINUOUS_RECONFIG: a file names the shape (ranks, cores per rank) every incoming task
+        # is given; either entry may be missing
+        case['reconfig'] = {'ranks': draw(st.sampled_from([None, 1, 1, 2, 3])),
+                            'cores_per_rank': draw(st.sampled_from([None, 1, 1, 2,
+                                                                    max(1, min(4, layout['cores']))]))}
+    return case
 
 
 def normalise(case):
